@@ -168,13 +168,27 @@ class Probe(SourceProxy):
         self._activated = True
         global_probes.add(self)
         self._ol.__enter__()
+        self._live = True
         return self
 
     def _exit(self):
         # This is called on the root probe by the __exit__ method of a child.
+        if not getattr(self, "_live", False):
+            return
+        self._live = False
         self._ol.__exit__(None, None, None)
         global_probes.remove(self)
         self._uninstall_tooling()
+
+    def __exit__(self, exc_type=None, exc=None, tb=None):
+        if self._root is not self:
+            return self._root.__exit__(exc_type, exc, tb)
+        try:
+            return super().__exit__(exc_type, exc, tb)
+        finally:
+            # Completing the stream can raise (e.g. min() of an empty
+            # stream). The probe must be uninstalled regardless.
+            self._exit()
 
     def activate(self):
         """Activate this probe."""
